@@ -442,6 +442,18 @@ def run_case(case, rec):
                 _drive(rec, text, cn, "copy", "no_such_item", items[0])
             else:
                 _drive(rec, text, cn, "replace", "no_such_item", "ABC")
+        # the SAME text edited once more in this process, another way (a copy onto a new item, then a replacement of an
+        # existing item, then a copy between existing items): each call is judged against the text it was given
+        if case["i"] % 3 == 0:
+            from rnapolis import transformer
+
+            rec.count("note:same-text-edited-again")
+            for fn_, a_ in ((transformer.copy_from_to, (text, cn, items[0], "vmon_second_edit")), (transformer.replace_value, (text, cn, items[-1], "KLMNOPQRSTUVWXYZ0123456789abcdefghij")),
+                            (transformer.copy_from_to, (text, cn, items[-1], items[0]))):
+                try:
+                    fn_(*a_)
+                except Exception:
+                    pass  # judged by the monitors
         return
     if case["family"] == "cli-incomplete-mode":
         # neither a complete copy mode nor a complete replace mode: nothing may be written
